@@ -25,7 +25,8 @@ pub fn generate_optimization_report(
     optimizations.sort_by_key(|(optimization, _)| *optimization as usize);
 
     for optimization in optimizations {
-        if optimization.1.len() > 0 {
+        //A pattern is rendered only if it has at least one finding (a line in some file)
+        if optimization.1.iter().any(|(_, lines)| lines.len() > 0) {
             let optimization_target = optimization.0;
             let mut matches = optimization.1;
             matches.sort();
